@@ -39,8 +39,8 @@ theorem rep_applyUnitary_had {n : Nat} {ρ u : Mat} {R : DMat n} (q : Nat) (hρ 
 
 theorem rep_resetChannel {n : Nat} {ρ : Mat} {R : DMat n} (q : Nat) (hq : q < n) (hρ : Rep n ρ R) :
     ∃ m, DM.applyChannel ρ (DM.resetKraus n q) = .ok m ∧ Rep n m (applyChannel R (resetKraus n q)) := by
-  have h0 := rep_getOneQubitGate n q hq _ _ rep2_ketbra00
-  have h1 := rep_getOneQubitGate n q hq _ _ rep2_ketbra01
+  have h0 := rep_getOneQubitGate n q hq _ _ rep2_ketBra00
+  have h1 := rep_getOneQubitGate n q hq _ _ rep2_ketBra01
   unfold DM.applyChannel DM.resetKraus
   simp only
   rw [if_neg (not_not.mpr (hρ.1.trans h0.1.symm))]
